@@ -58,3 +58,139 @@ pub(crate) fn adjust(now: DateTime<Utc>) -> DateTime<Utc> {
     c.samples.push(t.timestamp());
     t
 }
+
+// ---------------------------------------------------------------------------------------------
+// Load tracing: when the environment variable TOUGH_VERIF_TRACE names a directory, every
+// `RepositoryLoader::load` writes one JSON file there describing what it was given, what it
+// fetched (the bytes it pulled from the transport, per request, in order), how it ended and what
+// the datastore holds afterwards.  Nothing is changed about the load itself: the transport is
+// wrapped by a recorder that passes every item through.
+
+use crate::error::Result;
+use crate::transport::{Transport, TransportError, TransportStream};
+use crate::{ExpirationEnforcement, Repository, RepositoryLoader};
+use async_trait::async_trait;
+use futures::StreamExt;
+use std::sync::atomic::{AtomicU64, Ordering};
+use std::sync::Arc;
+use url::Url;
+
+/// Whether load tracing is switched on for this process.
+pub fn trace_enabled() -> bool {
+    std::env::var_os("TOUGH_VERIF_TRACE").is_some()
+}
+
+#[derive(Debug, Clone)]
+struct Recorded {
+    url: String,
+    data: Arc<Mutex<Vec<u8>>>,
+    err: Arc<Mutex<Option<String>>>,
+}
+
+#[derive(Debug, Clone)]
+struct Recorder {
+    inner: Box<dyn Transport>,
+    log: Arc<Mutex<Vec<Recorded>>>,
+}
+
+#[async_trait]
+impl Transport for Recorder {
+    async fn fetch(&self, url: Url) -> std::result::Result<TransportStream, TransportError> {
+        let rec = Recorded {
+            url: url.to_string(),
+            data: Arc::new(Mutex::new(Vec::new())),
+            err: Arc::new(Mutex::new(None)),
+        };
+        self.log.lock().unwrap().push(rec.clone());
+        match self.inner.fetch(url).await {
+            Err(e) => {
+                *rec.err.lock().unwrap() = Some(format!("fetch:{:?}", e.kind()));
+                Err(e)
+            }
+            Ok(stream) => {
+                let (data, err) = (rec.data.clone(), rec.err.clone());
+                Ok(stream
+                    .map(move |item| {
+                        match &item {
+                            Ok(bytes) => data.lock().unwrap().extend_from_slice(bytes),
+                            Err(e) => *err.lock().unwrap() = Some(format!("stream:{:?}", e.kind())),
+                        }
+                        item
+                    })
+                    .boxed())
+            }
+        }
+    }
+}
+
+static TRACE_SEQ: AtomicU64 = AtomicU64::new(0);
+
+pub(crate) async fn traced_load(mut loader: RepositoryLoader<'_>) -> Result<Repository> {
+    let dir = std::path::PathBuf::from(std::env::var_os("TOUGH_VERIF_TRACE").unwrap_or_default());
+    let inner: Box<dyn Transport> = loader
+        .transport
+        .take()
+        .unwrap_or_else(|| Box::new(crate::DefaultTransport::new()));
+    let log = Arc::new(Mutex::new(Vec::new()));
+    loader.transport = Some(Box::new(Recorder {
+        inner,
+        log: log.clone(),
+    }));
+    let shipped = hex::encode(loader.root);
+    let base = loader.metadata_base_url.to_string();
+    let enforce = !matches!(loader.expiration_enforcement, Some(ExpirationEnforcement::Unsafe));
+    let limits = loader.limits.unwrap_or_default();
+    let given = loader.datastore.clone();
+    let result = Repository::load(loader).await;
+    let mut store = serde_json::Map::new();
+    let mut store_known = false;
+    for f in ["timestamp.json", "snapshot.json", "targets.json", "latest_known_time.json"] {
+        let bytes = match (&result, &given) {
+            (Ok(repo), _) => {
+                store_known = true;
+                repo.datastore.bytes(f).await.ok().flatten()
+            }
+            (Err(_), Some(p)) => {
+                store_known = true;
+                std::fs::read(p.join(f)).ok()
+            }
+            _ => None,
+        };
+        store.insert(f.to_string(), bytes.map_or(serde_json::Value::Null, |b| hex::encode(b).into()));
+    }
+    let requests: Vec<serde_json::Value> = log
+        .lock()
+        .unwrap()
+        .iter()
+        .map(|r| {
+            serde_json::json!({"url": r.url, "data": hex::encode(&*r.data.lock().unwrap()),
+                               "err": r.err.lock().unwrap().clone()})
+        })
+        .collect();
+    let (res_dbg, res_disp, versions) = match &result {
+        Ok(repo) => (
+            "ok".to_string(),
+            String::new(),
+            serde_json::json!({"root": repo.root.signed.version, "ts": repo.timestamp.signed.version,
+                "sn": repo.snapshot.signed.version, "tg": repo.targets.signed.version,
+                "ltg": repo.snapshot.signed.meta.get("targets.json").map(|m| m.version)}),
+        ),
+        Err(e) => (format!("{e:?}"), format!("{e}"), serde_json::Value::Null),
+    };
+    let record = serde_json::json!({
+        "shipped": shipped, "metadata_base_url": base, "enforce": enforce,
+        "limits": {"root": limits.max_root_size, "ts": limits.max_timestamp_size, "sn": limits.max_snapshot_size,
+                   "tg": limits.max_targets_size, "updates": limits.max_root_updates},
+        "datastore_given": given.is_some(), "store_known": store_known, "store": store,
+        "requests": requests, "result_debug": res_dbg, "result_display": res_disp, "versions": versions,
+        "thread": std::thread::current().name().map(str::to_string),
+        "exe": std::env::current_exe().ok().map(|p| p.display().to_string()),
+    });
+    let n = TRACE_SEQ.fetch_add(1, Ordering::SeqCst);
+    let _ = std::fs::create_dir_all(&dir);
+    let _ = std::fs::write(
+        dir.join(format!("load-{}-{n}.json", std::process::id())),
+        serde_json::to_vec(&record).unwrap_or_default(),
+    );
+    result
+}
